@@ -204,6 +204,8 @@ pub struct Exec {
     pub tainted: BTreeSet<(u64, ChitchatId)>,
     /// loopback UDP fixture (created on first use, re-created by `case`)
     pub udp: Option<crate::udp_suite::UdpFixture>,
+    /// a KF-3 starvation was observed in the current case
+    pub kf3_seen: bool,
 }
 
 pub fn to_pdelta(delta: &verif::Delta) -> PDelta {
@@ -271,7 +273,7 @@ impl Exec {
             let _g = rt.enter();
             Instant::now()
         };
-        Exec { rt, start, nodes: BTreeMap::new(), soup: Vec::new(), poisoned: false, case_id: String::new(), hits: Vec::new(), tie_skips: 0, ledger: BTreeMap::new(), tainted: BTreeSet::new(), udp: None }
+        Exec { rt, start, nodes: BTreeMap::new(), soup: Vec::new(), poisoned: false, case_id: String::new(), hits: Vec::new(), tie_skips: 0, ledger: BTreeMap::new(), tainted: BTreeSet::new(), udp: None, kf3_seen: false }
     }
 
     pub fn now_ticks(&self) -> u64 {
@@ -560,27 +562,51 @@ impl Exec {
                 }).unwrap_or_default()
             })
             .collect();
+        // KF-3 bookkeeping: members each side holds but no longer advertises (quarantined there)
+        let quarantined = |ex: &Exec, s: u64| -> Vec<ChitchatId> {
+            let _g = ex.rt.enter();
+            ex.nodes.get(&s).map(|c| c.cc.scheduled_for_deletion_nodes().filter(|id| c.cc.node_state(id).is_some()).cloned().collect()).unwrap_or_default()
+        };
+        let q_from = quarantined(self, from);
+        let q_to = quarantined(self, to);
+        // a reply that spends most of a datagram on a member the receiver holds but quarantines
+        let starving = |m: &PMsg, q: &[ChitchatId]| -> Option<String> {
+            let delta = match m {
+                PMsg::SynAck { delta, .. } | PMsg::Ack { delta } => delta,
+                _ => return None,
+            };
+            if delta.serialized_len < 32_768 {
+                return None;
+            }
+            delta.node_deltas.iter().find(|nd| q.contains(&nd.chitchat_id) && nd.from_version_excluded == 0).map(|nd| {
+                format!("{:?} ({} key-values from version 0 in a {}-byte delta)", nd.chitchat_id.node_id, nd.key_values.len(), delta.serialized_len)
+            })
+        };
         let (l, o, synack, g1) = self.process_msg_ghost(to, &syn, None)?;
         out.push((l, o));
         let Some(synack) = synack else { return Some(out) };
         if self.poisoned {
             return Some(out);
         }
+        let mut starved = starving(&synack, &q_from);
         let (l, o, ack, g2) = self.process_msg_ghost(from, &synack, Some(&g1))?;
         out.push((l, o));
         let Some(ack) = ack else { return Some(out) };
         if self.poisoned {
             return Some(out);
         }
+        if starved.is_none() {
+            starved = starving(&ack, &q_to);
+        }
         let (l, o, _, _) = self.process_msg_ghost(to, &ack, Some(&g2))?;
         out.push((l, o));
         // C01 (per handshake): if one side held newer deliverable data about an advertised member,
         // some lagging copy strictly advanced
-        self.handshake_progress_check(from, to, &before);
+        self.handshake_progress_check(from, to, &before, starved);
         Some(out)
     }
 
-    fn handshake_progress_check(&mut self, a: u64, b: u64, before: &[(u64, ChitchatId, (u64, u64))]) {
+    fn handshake_progress_check(&mut self, a: u64, b: u64, before: &[(u64, ChitchatId, (u64, u64))], starved: Option<String>) {
         let get = |s: u64, id: &ChitchatId| before.iter().find(|e| e.0 == s && &e.1 == id).map(|e| e.2);
         let _g = self.rt.enter();
         let (Some(ca), Some(cb)) = (self.nodes.get(&a), self.nodes.get(&b)) else { return };
@@ -619,7 +645,13 @@ impl Exec {
         }
         drop(_g);
         if lagging && !progressed {
-            self.monitor_hit("C01", "handshake-no-progress", &format!("complete handshake {a} -> {b}: the copies of an advertised member differed but no copy advanced (member: node:(gc,max) before) {detail}"));
+            match starved {
+                Some(who) => {
+                    self.kf3_seen = true;
+                    self.monitor_hit("C01", "KF-3", &format!("complete handshake {a} -> {b}: no copy advanced ({detail}) because the reply spent its datagram re-sending member {who}, which the receiver holds but no longer advertises"))
+                }
+                None => self.monitor_hit("C01", "handshake-no-progress", &format!("complete handshake {a} -> {b}: the copies of an advertised member differed but no copy advanced (member: node:(gc,max) before) {detail}")),
+            }
         }
     }
 
@@ -1087,6 +1119,7 @@ impl Exec {
             self.ledger.clear();
             self.tainted.clear();
             self.udp = None;
+            self.kf3_seen = false;
             self.poisoned = false;
             let _g = self.rt.enter();
             self.start = Instant::now();
@@ -1832,7 +1865,11 @@ impl Exec {
                 });
                 drop(_g);
                 if !ok {
-                    self.monitor_hit("C01", "not-converged", "after loss-free handshakes between every pair some copy is still behind its owner");
+                    if self.kf3_seen {
+                        self.monitor_hit("C01", "KF-3", "after loss-free handshakes between every pair some copy is still behind its owner: the handshakes that could have advanced it spent their datagrams on a member the receiver holds but no longer advertises");
+                    } else {
+                        self.monitor_hit("C01", "not-converged", "after loss-free handshakes between every pair some copy is still behind its owner");
+                    }
                 }
                 Some((line, if ok { "(converged yes)".to_string() } else { "(converged no)".to_string() }))
             }
